@@ -392,6 +392,8 @@ def gen_config(rng, i, budget_scale=1):
     target = ["det", "noisy_global", "noisy_specified", "det", "noisy_global"][i % 5]
     x0 = ["omitted", "given"][(i // 2) % 2] if i % 7 else "omitted"
     D = 1 + (i % 3)
+    if i % 6 == 4:
+        D = 8 + (i % 2) + ((i // 6) % 2)      # high dimension: anything derived from the TEXT of the start point (its hash, its length) changes regime
     shape = rng.choice(["quad", "abs", "rosen"])
     box = ["bounded", "unbounded", "tight", "positive"][(i // 3) % 4] if i % 4 else "bounded"
     width = rng.choice([2.0, 4.0, 6.0])
